@@ -7,7 +7,7 @@
  * Numeric conversions are consumed with the right argument type and reported as ONE token (kind, flags,
  * width, precision, value) without being rendered to digits: digits, sign, '.' and blank/zero padding are
  * printable by construction (libc trusted) and C19 compares tokens, not digits.
- *   kind : 'b' byte | 'd' (%d %i, signed) | 'u' | 'x' | 'f' (value = bits of the float passed)
+ *   kind : 'b' byte | 'd' (%d %i, signed) | 'u' | 'x' | 'f' (fval = the value passed, converted to float)
  *   flags: 1 = '-', 2 = '0';  width 0 = none;  prec 0xff = none.  Length modifiers (l, ll) only select the
  *   argument type; %i == %d.
  * lha_arch_vasprintf is modelled by the same interpreter rendering into a static buffer (only %s, %c and %x
@@ -35,7 +35,8 @@
 #define VAS_MAX 64
 #endif
 
-typedef struct { u8 kind; u8 flags; u8 width; u8 prec; u64 value; } OutTok;
+typedef struct { u32 meta; u64 value; float fval; } OutTok;   /* meta = kind | flags << 8 | width << 16 | prec << 24 */
+#define OUT_META(kind, flags, width, prec) ((u32) (kind) | (u32) (flags) << 8 | (u32) (width) << 16 | (u32) (prec) << 24)
 #if OUT_RECORD
 static OutTok out_tok[OUT_TOKENS];
 #endif
@@ -47,18 +48,18 @@ static int out_check = 1;            /* C18 assertion on/off */
 
 enum { OUT_LIT = 0, OUT_STR = 1, OUT_CHR = 2, OUT_PAD = 3 };
 
-static void out_token(u8 kind, u8 flags, u8 width, u8 prec, u64 value)
+static void out_token_f(u8 kind, u8 flags, u8 width, u8 prec, u64 value, float fval)
 {
 #if OUT_RECORD
 	if (out_n < OUT_TOKENS) {
-		out_tok[out_n].kind = kind; out_tok[out_n].flags = flags; out_tok[out_n].width = width;
-		out_tok[out_n].prec = prec; out_tok[out_n].value = value;
+		out_tok[out_n].meta = OUT_META(kind, flags, width, prec); out_tok[out_n].value = value; out_tok[out_n].fval = fval;
 	}
 #else
-	(void) kind; (void) flags; (void) width; (void) prec; (void) value;
+	(void) kind; (void) flags; (void) width; (void) prec; (void) value; (void) fval;
 #endif
 	++out_n;
 }
+static void out_token(u8 kind, u8 flags, u8 width, u8 prec, u64 value) { out_token_f(kind, flags, width, prec, value, 0.0f); }
 
 static int out_printable(u8 c) { return (c >= 0x20 && c <= 0x7e) || c == '\n' || c == '\r' || c == '\t'; }
 
@@ -208,11 +209,9 @@ static int out_vformat(OutSink *k, const char *fmt, va_list ap)
 		}
 		case 'f': {
 			double d;
-			union { float f; u32 b; } cv;
 			OUT_ARG_DOUBLE(ap, d);
-			cv.f = (float) d;
 			CHECK(k->buf == NULL, "output model: %f inside a safe_printf format is not rendered");
-			out_token('f', flags, width, prec, cv.b); exact = 0;
+			out_token_f('f', flags, width, prec, 0, (float) d); exact = 0;
 			break;
 		}
 		default:
@@ -244,10 +243,14 @@ static unsigned vas_live, vas_calls;
 int lha_arch_vasprintf(char **result, char *fmt, va_list args)
 {
 	OutSink k;
+	unsigned i;
 	CHECK(vas_live == 0, "output model: one formatted string alive at a time");
+	/* the buffer is cleared with concrete writes and the terminator is never stored at a (possibly symbolic)
+	 * position: everything behind the formatted bytes stays a concrete NUL, so the string loops of the real
+	 * safe_output() and of the model stop at a concrete bound */
+	for (i = 0; i < VAS_MAX; ++i) vas_buf[i] = '\0';
 	k.buf = vas_buf; k.n = 0; k.cap = VAS_MAX;
 	(void) out_vformat(&k, fmt, args);
-	vas_buf[k.n] = '\0';
 	vas_live = 1; ++vas_calls;
 	*result = vas_buf;
 	return (int) k.n;
